@@ -58,6 +58,9 @@ def cases(tier):
         for du in ('3', '3r'):
             for re in ('lam', 'turb'):
                 out.append(dict(base, ducts=du, re=re, wall='none'))
+        for sf in ('CT', 1.3):
+            for re in ('vlow', 'lam', 'turb'):
+                out.append(dict(base, sf=sf, re=re, wall='none'))
         for ca in (True,):
             for du in ('1', '2f'):
                 for re in ('vlow', 'lam'):
@@ -131,6 +134,13 @@ def cases(tier):
                             out.append(dict(base, design=d, ducts=du, wall=wall, coolant='sodium',
                                             re=re, dT=250.0, fam=list(f), tol=tol))
     if tier == 'thorough':
+        for d in ('d2', 'd3', 'b3'):
+            for sf in ('CT', 1.3, 0.7):
+                for du in ('1', '2f'):
+                    for re in ('vlow', 'lam', 'trans', 'turb'):
+                        for wall in ('none', 'flow'):
+                            f = c01.FAMS_BARE[0] if d == 'b3' else fam
+                            out.append(dict(base, design=d, ducts=du, re=re, wall=wall, sf=sf, fam=list(f)))
         for cool in ('sodium', 'lead', 'lbe', 'nak', 'bismuth'):
             for ps in (None, 10.0, 0.2):
                 for wall in ('none', 'flow'):
